@@ -388,19 +388,19 @@ func C03(tier string) int {
 		return run.Finish()
 	}
 	run.Coverage = map[string]any{
-		"evaluations":         stats.kills + stats.images,
-		"distinct_nontrivial": stats.histories,
-		"rule":                "histories of 1-2 requests (all over an 8-request menu incl. conflicting ones, single/batch/proposal on 2 keys; 3 in thorough) plus fixed length-4 histories, run by a child process on the real signer stack; (1) the child is killed with SIGKILL at every hook point (store enter/exit, rules enter/exit, sign, request start/end); (2) the child runs under strace and every system-call boundary on the storage directory is a power-loss point: for each, every directory image allowed by the persistence model (metadata in order; O_DSYNC writes durable at exit and absent/complete/torn while in flight; other writes volatile until fsync and dropped as none/all/each/each suffix) is materialised; every image and every killed directory is reopened by the real code and probed with every request conflicting with a request that had reached signing: either the instance refuses to start or it refuses all of them; distinct = histories",
-		"samples":             samples.List(),
-		"exhaustive":          !capped,
-		"histories":           stats.histories,
-		"real_kills":          stats.kills,
-		"crash_points":        stats.crashPoints,
-		"images":              stats.images,
-		"images_failed_closed": stats.failedClosed,
+		"evaluations":                            stats.kills + stats.images,
+		"distinct_nontrivial":                    stats.histories,
+		"rule":                                   "histories of 1-2 requests (all over an 8-request menu incl. conflicting ones, single/batch/proposal on 2 keys; 3 in thorough) plus fixed length-4 histories, run by a child process on the real signer stack; (1) the child is killed with SIGKILL at every hook point (store enter/exit, rules enter/exit, sign, request start/end); (2) the child runs under strace and every system-call boundary on the storage directory is a power-loss point: for each, every directory image allowed by the persistence model (metadata in order; O_DSYNC writes durable at exit and absent/complete/torn while in flight; other writes volatile until fsync and dropped as none/all/each/each suffix) is materialised; every image and every killed directory is reopened by the real code and probed with every request conflicting with a request that had reached signing: either the instance refuses to start or it refuses all of them; distinct = histories",
+		"samples":                                samples.List(),
+		"exhaustive":                             !capped,
+		"histories":                              stats.histories,
+		"real_kills":                             stats.kills,
+		"crash_points":                           stats.crashPoints,
+		"images":                                 stats.images,
+		"images_failed_closed":                   stats.failedClosed,
 		"requests_reaching_signing_before_crash": stats.signedSeen,
-		"image_variants":      stats.variants,
-		"strace_available":    traced,
+		"image_variants":                         stats.variants,
+		"strace_available":                       traced,
 	}
 	run.Assumptions = []string{
 		"persistence model M-ord: metadata operations persist in program order; a write to an O_SYNC/O_DSYNC descriptor is durable when the call returns; other writes are volatile until fsync/fdatasync of that file returns",
